@@ -17,4 +17,8 @@ try:
         print(f'{os.path.basename(os.path.dirname(patch))} {c}: exit {p.returncode} ({res[c]["wall_s"]}s)' + ('' if p.returncode == 0 else '\n   ' + '\n   '.join(l[:300] for l in lines[:6])), flush=True)
 finally:
     git('checkout', '--', '.'); git('clean', '-fdq')
-json.dump(res, open(os.path.join(os.path.dirname(patch), 'checks.json'), 'w'), indent=1)
+out = os.path.join(os.path.dirname(patch), 'checks.json')
+try: allres = json.load(open(out))
+except Exception: allres = {}
+allres.update(res)  # a partial re-run (some checks only) keeps the other checks' last results
+json.dump(allres, open(out, 'w'), indent=1)
